@@ -236,6 +236,9 @@ pub struct ReferenceTime {
     ///
     /// [RFC3339]: https://www.rfc-editor.org/rfc/rfc3339
     #[serde(default)]
+    #[builder(field(
+        build = "if self.clock_type == Some(TimeClockType::Monotaonic) { TimeEpoch::Unknow } else { self.epoch.clone().unwrap_or_default() }"
+    ))]
     epoch: TimeEpoch,
     /// The optional "wall_clock_time" field can be used to provide an approximate date/time value that logging commenced
     /// at if the epoch value is "unknown". It uses the format defined in [RFC3339]. Note that conversion of timestamps
